@@ -235,30 +235,31 @@ func main() {
 var smtlogDir string
 
 var modelRedirects = map[string]string{
-	"crypto/sha256.New":                          "NewSha256",
-	"crypto/sha256.Sum256":                       "Sum256",
-	"crypto/sha512.New":                          "NewSha512",
-	"crypto/hmac.New":                            "NewHMAC",
-	"crypto/hmac.Equal":                          "HMACEqual",
-	"crypto/subtle.ConstantTimeCompare":          "ConstantTimeCompare",
-	"encoding/asn1.Marshal":                      "ASN1Marshal",
-	"encoding/asn1.Unmarshal":                    "ASN1Unmarshal",
-	"github.com/golang/protobuf/proto.Marshal":   "ProtoMarshal",
-	"github.com/tinylib/msgp/msgp.UnsafeString":  "MsgpUnsafeString",
-	"github.com/golang/protobuf/proto.Unmarshal": "ProtoUnmarshal",
-	"context.WithValue":                          "WithValue",
-	"context.Background":                         "Background",
-	"context.TODO":                               "Background",
-	"context.WithCancel":                         "WithCancel",
-	"context.WithTimeout":                        "WithTimeout",
-	"errors.Is":                                  "ErrorsIs",
-	"errors.As":                                  "ErrorsAs",
-	"errors.Unwrap":                              "ErrorsUnwrap",
-	"fmt.Errorf":                                 "Errorf",
-	"fmt.Sprintf":                                "Sprintf",
-	"fmt.Sprint":                                 "Sprint",
-	"fmt.Sprintln":                               "Sprintln",
-	"fmt.Fprintf":                                "Fprintf",
+	"crypto/sha256.New":                               "NewSha256",
+	"crypto/sha256.Sum256":                            "Sum256",
+	"crypto/sha512.New":                               "NewSha512",
+	"crypto/hmac.New":                                 "NewHMAC",
+	"crypto/hmac.Equal":                               "HMACEqual",
+	"crypto/subtle.ConstantTimeCompare":               "ConstantTimeCompare",
+	"encoding/asn1.Marshal":                           "ASN1Marshal",
+	"encoding/asn1.Unmarshal":                         "ASN1Unmarshal",
+	"github.com/golang/protobuf/proto.Marshal":        "ProtoMarshal",
+	"github.com/tinylib/msgp/msgp.UnsafeString":       "MsgpUnsafeString",
+	"github.com/cossacklabs/acra/utils.BytesToString": "MsgpUnsafeString",
+	"github.com/golang/protobuf/proto.Unmarshal":      "ProtoUnmarshal",
+	"context.WithValue":                               "WithValue",
+	"context.Background":                              "Background",
+	"context.TODO":                                    "Background",
+	"context.WithCancel":                              "WithCancel",
+	"context.WithTimeout":                             "WithTimeout",
+	"errors.Is":                                       "ErrorsIs",
+	"errors.As":                                       "ErrorsAs",
+	"errors.Unwrap":                                   "ErrorsUnwrap",
+	"fmt.Errorf":                                      "Errorf",
+	"fmt.Sprintf":                                     "Sprintf",
+	"fmt.Sprint":                                      "Sprint",
+	"fmt.Sprintln":                                    "Sprintln",
+	"fmt.Fprintf":                                     "Fprintf",
 }
 
 func runHarness(m *interp.Machine, pkg *ssa.Package, fn *ssa.Function, res *HarnessResult, workers, maxPaths int, budget, qtimeout time.Duration, solver string) {
